@@ -12,20 +12,18 @@ Theorem C32_grayscale : forall c,
 Proof. exact grayscale_law. Qed.
 Print Assumptions C32_grayscale.
 
-(* lighten / darken move the hsl lightness by exactly the amount (one binary64 addition), every colour *)
+(* lighten / darken move the hsl lightness by exactly the amount (one binary64 addition) and clamp
+   it to [0, 1]: every colour, every amount, NaN included (full strength since fix e0d618c) *)
 Theorem C32_lighten_darken : forall c a,
-  h_lum (to_hsla (lighten c a)) = fadd (h_lum (to_hsla c)) a
-  /\ h_lum (to_hsla (darken c a)) = fsub (h_lum (to_hsla c)) a.
+  h_lum (to_hsla (lighten c a)) = clamp01 (fadd (h_lum (to_hsla c)) a)
+  /\ h_lum (to_hsla (darken c a)) = clamp01 (fsub (h_lum (to_hsla c)) a).
 Proof. exact lighten_law. Qed.
 Print Assumptions C32_lighten_darken.
-(* ... but "clamped to range" is false: lighten(white, 10%) has lightness 110%, darken(black, 10%) -10% *)
-Definition C32_clamp_statement : Prop := forall c a,
-  fle (h_lum (to_hsla (lighten c a))) f_one = true.
-Theorem C32_refuted_lighten_clamp :
-  fgt (h_lum (to_hsla (lighten white tenth))) f_one = true
-  /\ flt (h_lum (to_hsla (darken (CRgba (rgba_from_bytes 0 0 0)) tenth))) f_zero = true.
-Proof. exact refuted_lighten_clamp. Qed.
-Print Assumptions C32_refuted_lighten_clamp.
+Theorem C32_lighten_range : forall c a,
+  Proofs.C31.in01 f_zero f_one (h_lum (to_hsla (lighten c a)))
+  /\ Proofs.C31.in01 f_zero f_one (h_lum (to_hsla (darken c a))).
+Proof. exact lighten_range. Qed.
+Print Assumptions C32_lighten_range.
 
 (* saturate clamps: the new saturation is in [0, 1] for every colour and amount *)
 Theorem C32_saturate_range : forall c a, f_is_nan (fadd (h_sat (to_hsla c)) a) = false ->
@@ -46,7 +44,7 @@ Theorem C32_identities : forall c,
 Proof. intros c. split. apply change_identity. apply adjust_identity. Qed.
 Print Assumptions C32_identities.
 
-(* partial (finite sweep over the named colours, outside F33's class): invert twice, complement twice,
+(* partial (finite sweep over ALL named colours; F33 is fixed): invert twice, complement twice,
    adjust-hue by 360deg, mix(c, c, 50% | 25%), scale-color(c) and adjust-color(c) all `==` c; and
    darken(lighten(c, 10%), 10%) == c whenever the lightness stays below 100% *)
 Theorem C32_named_laws_partial : forall e, In e color_table -> entry_laws e = true.
@@ -56,11 +54,12 @@ Theorem C32_named_undo_partial : forall e, In e color_table -> entry_undo e = tr
 Proof. exact (Base.ListX.sweep1 color_table entry_undo named_undo_sweep). Qed.
 Print Assumptions C32_named_undo_partial.
 
-(* the laws through `==` are false in two recorded classes *)
-Theorem C32_refuted_scale_identity :
-  color_eq (scale_none (CRgba (rgba_from_bytes 255 255 0))) (CRgba (rgba_from_bytes 255 255 0)) = Some false.
-Proof. exact refuted_scale_identity. Qed.
-Print Assumptions C32_refuted_scale_identity.
+(* F33's former counterexample holds now *)
+Theorem C32_scale_identity_yellow :
+  color_eq (scale_none (CRgba (rgba_from_bytes 255 255 0))) (CRgba (rgba_from_bytes 255 255 0)) = Some true.
+Proof. exact scale_identity_yellow. Qed.
+Print Assumptions C32_scale_identity_yellow.
+(* the laws through `==` are still false for colours kept in hsl form (F39) *)
 Theorem C32_refuted_hsl_undo :
   let c := sass_hsl (fc 120) (fc 50) (fc 50) f_one in
   color_eq (darken (lighten c tenth) tenth) c = Some false.
